@@ -385,6 +385,8 @@ fn item(s: &mut dyn Src, cx: &GenCtx, m: &mut Mode, depth: u32, in_not: bool) ->
             let mut mb = m.clone();
             let inner = conj(s, cx, &mut mb, depth + 1, 2, true);
             for x in &mb.any { Mode::add(&mut m.any, x); }
+            // one in five: a double negation, not(not(G)) - succeeds once, without bindings, iff G has an answer
+            if chance(s, 1, 5) { return Goal::Not(Box::new(Goal::Not(Box::new(inner)))); }
             Goal::Not(Box::new(inner))
         }
         3 => Goal::Cut,
